@@ -1,11 +1,13 @@
-import StepupModel.K.Scheduler
+import StepupModel.Lemmas.KGlobal
 /-!
 # C09  The stored workflow satisfies its invariants after every transaction
 
 Theorems about the kernel model (`K/*.lean`); the tie is the kernel correspondence over all
 scopes plus the regenerated tables.  First round (see DESIGN section 9/C09): table obligations,
-the per-primitive state/hash invariants and the creator-cycle guard; the lift to every request
-sequence is in progress (`Inv` is evaluated on the real database by the oracle meanwhile).
+the per-primitive state/hash invariants, the creator-cycle guard, and the lift of the state/hash
+consistency to every request (`KState.exec`, the function the driver runs and the correspondence
+compares) and every history of accepted and rejected requests (`KState.run`).  The other clauses
+of `Inv` are evaluated on the real database by the oracle after every request.
 -/
 namespace StepupModel.Props.C09
 open StepupModel.K StepupModel.Generated
@@ -42,11 +44,8 @@ theorem transitions_actions :
 
 /-! ## State / hash consistency of one file row (I5) -/
 
-/-- The row-level invariant the `file` table keeps: states that promise a hash have one, states
-that must not have one do not. -/
-def HashInv (st : FileState) (h : Option Nat) : Prop :=
-  ((st = .confirmed ∨ st = .built ∨ st = .outdated) → h.isSome) ∧
-  ((st = .missing ∨ st = .planned ∨ st = .volatile) → h = none)
+/-! The row-level invariant the `file` table keeps is `K.HashInv` (`Lemmas/Inv.lean`): states that
+promise a hash have one, states that must not have one do not. -/
 
 /-- Whatever is written to a `file` row (every `UPDATE file` of the code goes through
 `fileRowWrite`), the row it leaves satisfies `HashInv`: the CHECK constraint rejects the first
@@ -165,10 +164,41 @@ theorem create_rejects_self (s : KState) (k : Key) (n : Node) (init : Init)
   simp [hn, hd]
   rfl
 
+/-! ## State/hash consistency of the whole database, after every request and every history -/
+
+/-- A request of any kind (declaration, dispatch, completion, hash update, cleanup, startup
+routine) that is accepted maps a database in which every file row is state/hash consistent to
+such a database. -/
+theorem request_keeps_state_hash_consistency (cfg : KConfig) (r : Req) (s : KState) (res : KState × String)
+    (hinv : FilesOK s) (h : s.exec cfg r = .ok res) : FilesOK res.1 :=
+  exec_filesOK cfg r s res hinv h
+
+/-- After every history of requests, valid or rejected (a rejected one is rolled back), each
+under its own configuration, starting from the empty workflow: every file row of the stored
+workflow is state/hash consistent. -/
+theorem state_hash_consistent_after_every_history (h : List (KConfig × Req)) :
+    ∀ n ∈ (KState.init.run h).nodes, HashInv n.fstate n.fhash :=
+  run_filesOK h KState.init init_filesOK
+
+/-- A rejected request leaves the stored workflow exactly as it was. -/
+theorem rejected_request_changes_nothing (cfg : KConfig) (r : Req) (s : KState) (e : Err)
+    (h : s.exec cfg r = .error e) : s.step cfg r = s := by
+  unfold KState.step; rw [h]
+
 /-! Non-vacuity: concrete rows meet the hypotheses. -/
 example : ∃ n', fileRowWrite { key := ⟨.file, "a"⟩, fstate := .planned } .built (some (some 7)) = .ok n' ∧
     n'.fhash = some 7 := ⟨_, rfl, rfl⟩
 example : ∃ n', stepRowWrite { key := ⟨.step, "s"⟩, sstate := .running, holding := 2 } .succeeded (some false) = .ok n' ∧
     n'.holding = 0 := ⟨_, rfl, rfl⟩
+
+/-- The hypothesis of `request_keeps_state_hash_consistency` is met by a non-trivial database: a
+BUILT output with a hash next to a PLANNED one without.  (That histories reach such states is
+observed on every run: the correspondence evidence counts the BUILT rows the sequences reach.) -/
+example : FilesOK { KState.init with nodes := KState.init.nodes ++
+    [{ key := ⟨.file, "b.txt"⟩, fstate := .built, fhash := some 9 },
+     { key := ⟨.file, "c.txt"⟩, fstate := .planned, fhash := none }] } := by
+  intro n hn
+  simp [KState.init] at hn
+  rcases hn with rfl | rfl | rfl <;> simp [HashInv]
 
 end StepupModel.Props.C09
